@@ -43,8 +43,8 @@ malformed bytes are `0xFD`); the theorems below are about the resulting byte(run
   multiple of 8, `Spec.Text.check` answers `none` on the model's three renderings with the model's reported metrics
   (`check_of_facts`, built from `boxOk_of_facts`, `boxOk1_of_facts`, `translateOk_of_facts`, `scaleOk_of_facts`, is the
   Spec-side half, usable for any renderer); `spec_check_holds` is the instance for the fixed setter order of `text.case`.
-* `sess_final_holds` — one image object, **any call history** (`Mono.TextCall`: setters in any order, metric queries, earlier
-  texts, re-creations, direct `DrawChar`s — the `text.sess` records): whatever state the history leaves, if its spacing is 0
+* `sess_final_holds` — one image object, **any call history** (`Mono.TextCall`: setters in any order incl. `SetBoundingBox` /
+  `InvertPixels`, metric queries, earlier texts, re-creations, direct `DrawChar`s — the `text.sess` records): whatever state the history leaves, if its spacing is 0
   and its sizes are `≥ 1` the final case obeys `Spec.Text.check`; `runCalls_bg`: no history separates background and text
   colour.  (The model has no state besides canvas × `TextSt`: a cached line height or a memoised glyph width in the code
   shows as model ≠ implementation and, where it breaks a clause, as a Spec violation of the run.)
